@@ -295,7 +295,13 @@ class BoundedStream:
             chunks = []
 
         while self._bytes_remaining > 0:
-            event = await self._receive()
+            try:
+                event = await self._receive()
+            except BaseException:
+                # NOTE: interrupted (cancelled / failed) while waiting: keep
+                #   what was already taken so that a later read finds it.
+                self._buffer = b''.join(chunks)
+                raise
 
             # PERF(kgriffs): Use try..except because we normally expect the
             #   'body' key to be present.
@@ -379,7 +385,13 @@ class BoundedStream:
             chunks = []
 
         while self._bytes_remaining > 0 and num_bytes_available < size:
-            event = await self._receive()
+            try:
+                event = await self._receive()
+            except BaseException:
+                # NOTE: interrupted (cancelled / failed) while waiting: keep
+                #   what was already taken so that a later read finds it.
+                self._buffer = b''.join(chunks)
+                raise
 
             # PERF(kgriffs): Use try..except because we normally expect the
             #   'body' key to be present.
